@@ -407,6 +407,14 @@ def _into(ip, st, t, a, rt):
     v = a[0]
     if isinstance(v, RF):
         return v
+    # `x.into()` through core's blanket impl: the crate's own `impl From<X> for Y` (e.g. the derived Dimensionality -> usize) is the conversion
+    src = deref(v)
+    adt = src.adt if isinstance(src, I.St) and isinstance(src.adt, str) else None
+    if adt and rt:
+        want = 'impl std::convert::From<%s> for %s>::from' % (adt, str(rt).strip())
+        cands = [p_ for p_ in ip.facts.by_path if p_.endswith(want)]
+        if len(cands) == 1:
+            return ip.call_path(cands[0], [src], rt, st, t)
     return NotImplemented
 
 
